@@ -23,6 +23,31 @@ Theorem C14_range_print_parse : forall r,
 Proof. exact parse_to_header. Qed.
 Print Assumptions C14_range_print_parse.
 
+(* the acceptance set of Range::parse is the single-range grammar of RFC 9110 - "bytes=" first-pos "-" [last-pos] or
+   "bytes=-" suffix-length, decimal digits only, at least one digit each, first <= last, positions below 2^63 and the
+   suffix length below 2^64 - and the parsed range is the meaning of the sentence: for every byte string, both ways *)
+From S3V Require Import proofs.RangeGrammar.
+Theorem C14_range_parse_is_the_grammar : forall h r, parse h = Some r <-> in_grammar h r.
+Proof. exact parse_iff_grammar. Qed.
+Check C14_range_parse_is_the_grammar : forall h r, parse h = Some r <-> in_grammar h r.
+Print Assumptions C14_range_parse_is_the_grammar.
+Theorem C14_range_parsed_is_well_formed : forall h r, parse h = Some r -> wf_range r.
+Proof. exact parsed_is_wf. Qed.
+Print Assumptions C14_range_parsed_is_well_formed.
+(* hence every header the adapter accepts is checked against the object length exactly as RFC 9110 says *)
+Theorem C14_range_header_to_interval : forall h r full, parse h = Some r -> check r full = rfc_interval r full.
+Proof. exact header_to_interval. Qed.
+Print Assumptions C14_range_header_to_interval.
+Example C14_range_grammar_examples :
+  in_grammar (b "bytes=0-499") (RInt 0 (Some 499)) /\ in_grammar (b "bytes=9500-") (RInt 9500 None)
+  /\ in_grammar (b "bytes=-500") (RSuffix 500)
+  /\ parse (b "bytes=-") = None /\ parse (b "bytes=5-4") = None /\ parse (b "bytes= 1-2") = None
+  /\ parse (b "bytes=1-2,4-5") = None /\ parse (b "bytes=9223372036854775808-") = None.
+Proof.
+  repeat split; try (vm_compute; reflexivity); apply parse_iff_grammar; vm_compute; reflexivity.
+Qed.
+Print Assumptions C14_range_grammar_examples.
+
 (* timestamps in the date-time format (the format of every XML timestamp): parse (format t) is the same instant truncated
    to milliseconds, for every instant whose UTC year is 0..9999; the civil date of every day number is a valid date and
    maps back to the day number (unbounded in the year) *)
